@@ -66,7 +66,7 @@ fn main() {
         #[cfg(feature = "hooks")]
         "bestmode" => scen_hook::bestmode(&mut sink, seed, thorough),
         #[cfg(feature = "hooks")]
-        "candidates" => scen_hook::candidates(&mut sink, seed, thorough),
+        "candidates" => scen_hook::candidates(&mut sink, seed, thorough, &arg(&args, "--corpus", "")),
         #[cfg(feature = "hooks")]
         "compact" => scen_hook::compact(&mut sink, seed, thorough),
         other => { eprintln!("unknown scenario {other}"); std::process::exit(2); }
